@@ -15,7 +15,8 @@ TRUSTED = ['Lean 4.33.0 kernel (+ leanchecker in the thorough tier)',
            'harness/c18.py + apel.py (fixture modules, import hook, comparison), Drv.lean protocol parsing',
            'compiled driver peldrv agrees with the kernel reading of the same definitions']
 ASSUME = ['importlib / sys.modules are modelled as an environment: module name -> behaviour; a meta-path finder logs every import attempt on the real side',
-          'fixture modules realise the behaviours echo / raise / return None / return fixed text; the shipped modules m2c00, oe500, osrc, ocallouts are exercised end to end']
+          'fixture modules realise the behaviours echo / raise / return None / return fixed text; the shipped modules m2c00, oe500, osrc, ocallouts are exercised end to end',
+          'the three I/O-drawer tables of m2c00 are loaded by the loaders of the model (C14/C15/C16) from the shipped file lines']
 RULE = ('cases = PELs with UD / ED / SRC sections over creators x components x subtypes x versions, fixture parser modules of every behaviour, '
         'plugins on and off; m2c00 requests over subtypes 72/73/84/other x versions 1/2/other x payloads; non-trivial = a parser module '
         'is consulted; distinct by (environment, bytes)')
@@ -119,10 +120,9 @@ def run(tier, seed):
         from io_drawer import ilog as il, trace as tr, hlog
         reqs, drawers = [], []
         for i, (name, (hdr, sf)) in enumerate(iod.drawer_files().items()):
-            tbl = [(t.pte_pattern, t.message_format, list(t.params)) for t in il.PTETable(hdr).entries]
-            strs = [(t.hash_value, t.message_format, t.location) for t in tr.TraceStringFile(sf).trace_strings]
-            flds = [(f.name, f.size) for f in hlog.get_hlog_fields(hdr)]
-            reqs += ['deftbl ' + iod.tok_tbl(tbl), 'defstr ' + iod.tok_strs(strs), 'deffld ' + iod.tok_flds(flds)]
+            # the three tables are loaded by the MODEL's loaders from the file lines
+            reqs += ['deftblfile ' + iod.tok_lines(iod.file_lines(hdr)), 'defstrfile ' + iod.tok_lines(iod.file_lines(sf)),
+                     'deffldfile ' + iod.tok_lines(iod.file_lines(hdr))]
             drawers.append((1 if name == 'mex' else 2, i, i, i))
         dtok = common.tlist(drawers, lambda d: '%d %d %d %d' % d)
         cases = []
